@@ -5,6 +5,8 @@
 package e1
 
 import (
+	"crypto/sha256"
+	"encoding/hex"
 	"fmt"
 	"os"
 	"path/filepath"
@@ -63,6 +65,8 @@ type Outcome struct {
 	Log        []disk.LogEntry
 	// Results of faulted ops for C17
 	ErrAtFault bool
+	Model      *model.Model // nil when the model could no longer represent the file
+	Path       string
 }
 
 // Options controls an execution.
@@ -97,6 +101,12 @@ type Exec struct {
 	opIdx  int
 	closed bool
 	dead   bool // model can no longer represent the file; stop comparing
+	// handles kept after Close for "call on closed handle" operations (C16)
+	fwClosed  *hdf5.FileWriter
+	dwsClosed map[string]*hdf5.DatasetWriter
+	// read-modify-write session bookkeeping (C10)
+	sessionHash string
+	sessionOps  int
 }
 
 // Path returns the path of the simulated file.
@@ -184,6 +194,10 @@ func Run(t *trace.Trace, o Options) *Outcome {
 	e.out.Log = e.sim.Log
 	if st, err := os.Stat(e.path); err == nil {
 		e.out.FileSize = st.Size()
+	}
+	e.out.Path = e.path
+	if !e.dead {
+		e.out.Model = e.m
 	}
 	return e.out
 }
@@ -361,10 +375,16 @@ func (e *Exec) doOp(op *trace.Op) OpResult {
 	}
 	if e.fw == nil {
 		// operations on a closed writer: still issue them where a handle exists (C16)
-		if op.Bad != "closed" {
+		if op.Bad != "closed" || e.fwClosed == nil {
 			return OpResult{Skipped: true}
 		}
+		e.fw, e.dws = e.fwClosed, e.dwsClosed
+		defer func() {
+			e.fw = nil
+			e.dws = map[string]*hdf5.DatasetWriter{}
+		}()
 	}
+	e.sessionOps++
 	var res OpResult
 	// property-level expectations known before the call
 	mustReject, rejectWhy := false, ""
@@ -619,10 +639,20 @@ func (e *Exec) restart(mode string, final bool) {
 				e.violate("panic", "close-again", r2.Panic)
 			}
 		}
+		e.fwClosed, e.dwsClosed = e.fw, e.dws
+		wasRMW := e.rmw
 		e.fw = nil
 		e.rmw = false
 		e.dws = map[string]*hdf5.DatasetWriter{}
 		e.gws = map[string]*hdf5.GroupWriter{}
+		// C10: a session that made no modification leaves the file byte-identical
+		if wasRMW && e.sessionOps == 0 && e.sessionHash != "" && e.o.Property == "C10" {
+			if h := fileHash(e.path); h != e.sessionHash {
+				e.violate("noop-session", "file-bytes-changed", "a session without any call changed the file bytes")
+			} else {
+				e.probe("noop-session-identical")
+			}
+		}
 	}
 	e.out.Restarts++
 	if !e.o.NoFinalCheck || final {
@@ -658,6 +688,19 @@ func (e *Exec) restart(mode string, final bool) {
 		}
 		e.fw = fw
 		e.rmw = true
+		e.sessionOps = 0
+		if e.o.Property == "C10" {
+			e.sessionHash = fileHash(e.path)
+		}
 		e.probe("rmw_session")
 	}
+}
+
+func fileHash(path string) string {
+	b, err := os.ReadFile(path)
+	if err != nil {
+		return "unreadable:" + err.Error()
+	}
+	h := sha256.Sum256(b)
+	return hex.EncodeToString(h[:])
 }
